@@ -159,6 +159,15 @@ def translate_all(ctx):
             fails["operand_reflect"] = e
         except (KeyError, StopIteration) as e:
             fails["operand_reflect"] = TranslateError("rspirv/dr/autogen_operand.rs", "name resolution", f"unknown name {e}")
+    from translate import disas_operand
+    attempt("disas_operand", lambda: (disas_operand.parse(read(f"{REPO}/rspirv/binary/autogen_disas_operand.rs")),
+                                      disas_operand.parse_dispatch(read(f"{REPO}/rspirv/binary/disassemble.rs"))))
+    if all(k in T for k in ("disas_operand", "operand_enum", "header")):
+        try:
+            lean_emit.emit_disas(T, "Rspirv.Generated.Disas", f"{GEN}/Disas.lean",
+                                 "from rspirv/binary/autogen_disas_operand.rs and the dispatcher in disassemble.rs")
+        except TranslateError as e:
+            fails["disas_operand"] = e
     ctx.data["T"] = T
     ctx.data["translate_fails"] = fails
     if "header" in T:
@@ -444,7 +453,7 @@ def shrink_request(ctx, req, still_differs, max_steps=200, keep=1):
     return " ".join([head] + toks)
 
 
-def differential(ctx, reqs, channel, shrink=True, max_report=5, oracle=None, keep=1):
+def differential(ctx, reqs, channel, shrink=True, max_report=5, oracle=None, keep=1, equal=None):
     """Run the same requests through the real code and the Lean model; report disagreements (kind
     'correspondence') and, separately, failures of a property oracle evaluated on the implementation's
     answers (kind 'oracle'). Returns (impl_lines, model_lines)."""
@@ -456,12 +465,13 @@ def differential(ctx, reqs, channel, shrink=True, max_report=5, oracle=None, kee
         ctx.oblige(f"correspondence:{channel}", False)
         return impl, model
     ctx.evaluations += len(reqs)
-    bad = [(r, a, b) for r, a, b in zip(reqs, impl, model) if canon(a) != canon(b)]
+    same = equal or (lambda a, b: canon(a) == canon(b))
+    bad = [(r, a, b) for r, a, b in zip(reqs, impl, model) if not same(a, b)]
 
     def differs(r):
         a = run_impl(ctx, [r])
         b = run_driver(ctx, [r])
-        return len(a) == 1 and len(b) == 1 and canon(a[0]) != canon(b[0]) and "bad-request" not in (a[0], b[0])
+        return len(a) == 1 and len(b) == 1 and not same(a[0], b[0]) and "bad-request" not in (a[0], b[0])
 
     for r, a, b in bad[:max_report]:
         small = shrink_request(ctx, r, differs, keep=keep) if shrink else r
@@ -508,6 +518,9 @@ def load_pinned_T():
     T["operand_enum"] = [tuple(x) for x in T["operand_enum"]]
     pk, pf = T["parse_operand"]
     T["parse_operand"] = ({k: tup(v) for k, v in pk.items()}, {k: tup(v) for k, v in pf.items()})
+    if "disas_operand" in T:
+        tabs, disp = T["disas_operand"]
+        T["disas_operand"] = ([dict(t, rows=[tuple(r) for r in t["rows"]]) for t in tabs], tuple(disp))
     return T
 
 
